@@ -29,7 +29,7 @@ func init() {
 			"after the loop over all of the handle's allocations and false as soon as one is not confirmed, and every tracked allocation is unconditionally registered with the handle tracker; " +
 			"(lastblock) ReleaseBlockAffinity is reached only with len(blocksByNode[node]) >= 2 for the node of the ranged empty block, after blockReleaseTracker.markEmpty(cidr) returned true, " +
 			"for the cached block of the same CIDR, with mustBeEmpty=true, and a successful release is followed by forgetBlock(cidr) before the next iteration; markEmpty returns true only " +
-			"on a second observation later than the grace period; (book) forgetBlock deletes the CIDR from every per-block map that onBlockUpdated fills, and releaseAllocation undoes " +
+			"on a second observation later than the grace period; (book) forgetBlock deletes the CIDR from every per-block map that onBlockUpdated fills (maps and deletes are collected in these functions and in every in-package helper they hand the block's CIDR to), and releaseAllocation undoes " +
 			"every registration of assignAllocation plus the confirmedLeaks entry; " +
 			"(knode) the node name that the scan passes to nodeExists() - whose emptiness counts as 'the Kubernetes node is gone' - comes from a (string, error) lookup, untimed confirmation is only reachable where that lookup's error was nil, and the lookup (kubernetesNodeForCalico, followed through `return f(x)` into getK8sNodeName) returns a nil error only together with a name tested non-empty or after Nodes().Get() failed with ErrorResourceDoesNotExist (type assertion or errors.As), so a cached \"\" placeholder, a non-Kubernetes node or a transient error never reads as a deleted node; " +
 			"(vm) every function that consults DeferredInformers.VMInstanceIndexer() returns false only where VMIndexer().GetByKey reported the VirtualMachine absent and VMInstanceIndexer().GetByKey reported the instance absent or a metav1.OwnerReference.Kind == \"VirtualMachine\" (name of the KubeVirt API type) comparison held - established directly, through a flag variable, or inside boolean / nil-returning helper functions.",
@@ -160,15 +160,17 @@ func runC23(c *Ctx) {
 	c.Rule("C23.vm", "E-GUARD", "the VM/VMI cache consulter returns false only where the VirtualMachine lookup said absent and the instance lookup said absent or an OwnerReference.Kind == VirtualMachine comparison held (directly, via flag, or inside a boolean helper)", 2)
 	c.Rule("C23.book", "E-PAIR", "forgetBlock clears every per-block map filled by onBlockUpdated; releaseAllocation undoes every registration made by assignAllocation and the confirmedLeaks entry", 13)
 
-	c23Own(m)
-	c23Final(m)
-	c23Confirm(m)
-	c23Grace(m)
-	c23Handle(m)
-	c23LastBlock(m)
-	c23Book(m)
-	c23KNode(m)
-	c23VM(m)
+	// Each family resolves its own anchors.  A lost anchor breaks the check (exit
+	// 2) but only silences the family that needs it: the others still run, so an
+	// unrelated refactor never hides their verdicts.
+	var lost []string
+	for _, fam := range []func(*c23Model){c23Own, c23Final, c23Confirm, c23Grace, c23Handle, c23LastBlock,
+		c23BookBlocks, c23BookForget, c23BookAllocations, c23KNode, c23VM} {
+		c23Guarded(&lost, func() { fam(m) })
+	}
+	if len(lost) > 0 {
+		c.Lost("%s", strings.Join(lost, " | "))
+	}
 }
 
 // ------------------------------------------------------------------- own --
@@ -869,92 +871,193 @@ func c23LastBlock(m *c23Model) {
 
 // ------------------------------------------------------------------ book --
 
-func c23Book(m *c23Model) {
-	c, p := m.c, m.p
-	ctl, _ := p.LookupObj(c23Pkg, "IPAMController").(*types.TypeName)
+// c23CtlMapField returns the IPAMController field a map operand belongs to:
+// c.F or c.F[x] (also through the comma-ok form).
+func c23CtlMapField(m *c23Model, v ssa.Value) *types.Var {
+	ctl, _ := m.p.LookupObj(c23Pkg, "IPAMController").(*types.TypeName)
 	if ctl == nil {
-		c.Lost("type IPAMController")
+		m.c.Lost("type IPAMController")
 	}
-	isCtlField := func(v *types.Var) bool {
-		st := ctl.Type().Underlying().(*types.Struct)
-		for i := 0; i < st.NumFields(); i++ {
-			if st.Field(i) == v {
+	if ex, ok := v.(*ssa.Extract); ok {
+		v = ex.Tuple
+	}
+	if lk, ok := v.(*ssa.Lookup); ok {
+		v = lk.X
+	}
+	fv := fieldVar(v)
+	if fv == nil {
+		return nil
+	}
+	st := ctl.Type().Underlying().(*types.Struct)
+	for i := 0; i < st.NumFields(); i++ {
+		if st.Field(i) == fv {
+			return fv
+		}
+	}
+	return nil
+}
+
+// c23PkgCallee: the function with a body in the node-controller package that a
+// call instruction invokes statically.
+func c23PkgCallee(m *c23Model, in ssa.Instruction) (*ssa.Function, []ssa.Value) {
+	ci, ok := in.(ssa.CallInstruction)
+	if !ok {
+		return nil, nil
+	}
+	g := calleeFn(ci.Common())
+	if g == nil || g.Blocks == nil || g.Pkg == nil || g.Pkg != m.p.SSAPkg(c23Pkg) {
+		return nil, nil
+	}
+	return g, ci.Common().Args
+}
+
+// c23KeyFlow visits fn and, transitively (bounded), every in-package callee that
+// receives one of the `keys` values as an argument (the callee's parameter then
+// is the key there).  visit sees each function with its key test.  Extracting a
+// part of fn into a helper that is handed the key keeps the helper in view.
+func c23KeyFlow(m *c23Model, fn *ssa.Function, keys []ssa.Value, depth int, seen map[*ssa.Function]bool, visit func(f *ssa.Function, isKey func(ssa.Value) bool)) {
+	if seen[fn] || depth > 4 {
+		return
+	}
+	seen[fn] = true
+	isKey := func(v ssa.Value) bool {
+		for _, k := range keys {
+			if c23Same(v, k) {
 				return true
 			}
 		}
 		return false
 	}
-	// mapField returns the controller field a map operand belongs to: c.F or c.F[x]
-	mapField := func(v ssa.Value) *types.Var {
-		if ex, ok := v.(*ssa.Extract); ok {
-			v = ex.Tuple
+	visit(fn, isKey)
+	allInstrs(fn, false, func(_ *ssa.Function, in ssa.Instruction) {
+		g, args := c23PkgCallee(m, in)
+		if g == nil {
+			return
 		}
-		if lk, ok := v.(*ssa.Lookup); ok {
-			v = lk.X
+		var sub []ssa.Value
+		for i, a := range args {
+			if i < len(g.Params) && isKey(a) {
+				sub = append(sub, g.Params[i])
+			}
 		}
-		fv := fieldVar(v)
-		if fv != nil && isCtlField(fv) {
-			return fv
+		if len(sub) > 0 {
+			c23KeyFlow(m, g, sub, depth+1, seen, visit)
 		}
-		return nil
-	}
-	// per-block maps: fields updated with key == block CIDR in onBlockUpdated (and assignAllocation for its cidr param)
-	upd := c23Func(c, p, c23Pkg, "IPAMController.onBlockUpdated")
-	assign := c23Func(c, p, c23Pkg, "IPAMController.assignAllocation")
-	forget := c23Func(c, p, c23Pkg, "IPAMController.forgetBlock")
-	release := c23Func(c, p, c23Pkg, "IPAMController.releaseAllocation")
-	// the CIDR string in onBlockUpdated: the argument passed to assignAllocation
-	var cidr ssa.Value
+	})
+}
+
+// c23BlockCIDRs: the values in the block-update handler that are the block's
+// CIDR string: String() of something selected from the model.BlockKey of the
+// update, plus (as a cross-check) whatever is passed as the block to
+// assignAllocation.
+func c23BlockCIDRs(m *c23Model, upd *ssa.Function) []ssa.Value {
+	var out []ssa.Value
+	allInstrs(upd, false, func(_ *ssa.Function, in ssa.Instruction) {
+		call, ok := in.(*ssa.Call)
+		if !ok {
+			return
+		}
+		f := calleeOf(call.Common())
+		if f == nil || f.Name() != "String" || len(call.Call.Args) == 0 && !call.Call.IsInvoke() {
+			return
+		}
+		if b, ok := call.Type().Underlying().(*types.Basic); !ok || b.Kind() != types.String {
+			return
+		}
+		recv := call.Call.Value
+		if !call.Call.IsInvoke() {
+			recv = call.Call.Args[0]
+		}
+		fromKey := false
+		c23Back(recv, func(v ssa.Value) bool {
+			if ta, ok := v.(*ssa.TypeAssert); ok && qualTypeName(ta.AssertedType) == "libcalico-go/lib/backend/model.BlockKey" {
+				fromKey = true
+			}
+			return false
+		}, func(ssa.Value) {})
+		if fromKey {
+			out = append(out, call)
+		}
+	})
 	for _, cs := range callsIn(upd, false, func(fn *types.Func) bool { return isFunc(fn, c23Pkg, "IPAMController.assignAllocation") }) {
-		cidr = cs.Args()[1]
+		out = append(out, cs.Args()[1])
 	}
-	if cidr == nil {
-		c.Lost("onBlockUpdated does not call assignAllocation")
+	return out
+}
+
+// c23BookBlocks: forgetBlock deletes the CIDR from every per-block map that the
+// block-update handler fills.  The maps are derived from the code: controller
+// map fields updated with the block's CIDR as key in onBlockUpdated or in any
+// in-package function it (transitively) hands the CIDR to; the deletes are
+// looked for the same way below forgetBlock.
+func c23BookBlocks(m *c23Model) {
+	c, p := m.c, m.p
+	upd := c23Func(c, p, c23Pkg, "IPAMController.onBlockUpdated")
+	forget := c23Func(c, p, c23Pkg, "IPAMController.forgetBlock")
+	cidrs := c23BlockCIDRs(m, upd)
+	if len(cidrs) == 0 {
+		c.Lost("onBlockUpdated: no value is the String() of the updated model.BlockKey's CIDR or the block passed to assignAllocation")
 	}
 	perBlock := map[*types.Var]bool{}
-	allInstrs(upd, false, func(_ *ssa.Function, in ssa.Instruction) {
-		if mu, ok := in.(*ssa.MapUpdate); ok && c23Same(mu.Key, cidr) {
-			if fv := mapField(mu.Map); fv != nil {
-				perBlock[fv] = true
+	c23KeyFlow(m, upd, cidrs, 0, map[*ssa.Function]bool{}, func(f *ssa.Function, isKey func(ssa.Value) bool) {
+		allInstrs(f, false, func(_ *ssa.Function, in ssa.Instruction) {
+			if mu, ok := in.(*ssa.MapUpdate); ok && isKey(mu.Key) {
+				if fv := c23CtlMapField(m, mu.Map); fv != nil {
+					perBlock[fv] = true
+				}
 			}
-		}
+		})
 	})
-	allInstrs(assign, false, func(_ *ssa.Function, in ssa.Instruction) {
-		if mu, ok := in.(*ssa.MapUpdate); ok && mu.Key == ssa.Value(assign.Params[1]) {
-			if fv := mapField(mu.Map); fv != nil {
-				perBlock[fv] = true
-			}
-		}
-	})
-	if len(perBlock) < 5 {
-		var names []string
-		for fv := range perBlock {
-			names = append(names, fv.Name())
-		}
-		sort.Strings(names)
-		c.Lost("expected >= 5 per-block maps filled by onBlockUpdated, derived %v", names)
-	}
 	var fields []*types.Var
 	for fv := range perBlock {
 		fields = append(fields, fv)
 	}
 	sort.Slice(fields, func(i, j int) bool { return fields[i].Name() < fields[j].Name() })
-	key := forget.Params[1]
-	for _, fv := range fields {
-		ok := false
-		for _, d := range c23MapDeletes(forget) {
-			if mapField(d.Args[0]) == fv && d.Args[1] == ssa.Value(key) {
-				ok = true
+	if len(perBlock) < 5 {
+		var names []string
+		for _, fv := range fields {
+			names = append(names, fv.Name())
+		}
+		c.Lost("expected >= 5 per-block maps filled by onBlockUpdated and the helpers it hands the block CIDR to, derived %v", names)
+	}
+	deleted := map[*types.Var]bool{}
+	if len(forget.Params) < 2 {
+		c.Lost("forgetBlock signature")
+	}
+	c23KeyFlow(m, forget, []ssa.Value{forget.Params[1]}, 0, map[*ssa.Function]bool{}, func(f *ssa.Function, isKey func(ssa.Value) bool) {
+		for _, d := range c23MapDeletes(f) {
+			if fv := c23CtlMapField(m, d.Args[0]); fv != nil && isKey(d.Args[1]) {
+				deleted[fv] = true
 			}
 		}
-		c.Check(ok, "C23.book/forgetBlock/"+fv.Name(), p.Pos(forget.Pos()),
+	})
+	for _, fv := range fields {
+		c.Check(deleted[fv], "C23.book/forgetBlock/"+fv.Name(), p.Pos(forget.Pos()),
 			"forgetBlock deletes the CIDR from "+fv.Name(), "onBlockUpdated fills "+fv.Name()+"[cidr] but forgetBlock does not delete it: the GC keeps acting on a block that no longer exists")
 	}
-	// forgetBlock releases every allocation of the block and informs the two sub-trackers
+}
+
+// c23BookForget: forgetBlock releases every allocation of the block and informs
+// the two sub-trackers (itself or in a helper it calls).
+func c23BookForget(m *c23Model) {
+	c, p := m.c, m.p
+	forget := c23Func(c, p, c23Pkg, "IPAMController.forgetBlock")
 	for _, sub := range []struct{ typ, name string }{{"IPAMController", "releaseAllocation"}, {"blockReleaseTracker", "onBlockDeleted"}, {"poolManager", "onBlockDeleted"}} {
-		n := len(callsIn(forget, false, func(fn *types.Func) bool { return isFunc(fn, c23Pkg, sub.typ+"."+sub.name) }))
+		n := 0
+		c23KeyFlow(m, forget, []ssa.Value{forget.Params[1]}, 0, map[*ssa.Function]bool{}, func(f *ssa.Function, _ func(ssa.Value) bool) {
+			n += len(callsIn(f, false, func(fn *types.Func) bool { return isFunc(fn, c23Pkg, sub.typ+"."+sub.name) }))
+		})
 		c.Check(n > 0, "C23.book/forgetBlock/"+sub.typ+"."+sub.name, p.Pos(forget.Pos()), "forgetBlock calls "+sub.typ+"."+sub.name, "forgetBlock no longer calls "+sub.typ+"."+sub.name)
 	}
+}
+
+// c23BookAllocations: releaseAllocation undoes every registration made by
+// assignAllocation, and drops the confirmedLeaks entry.
+func c23BookAllocations(m *c23Model) {
+	c, p := m.c, m.p
+	assign := c23Func(c, p, c23Pkg, "IPAMController.assignAllocation")
+	release := c23Func(c, p, c23Pkg, "IPAMController.releaseAllocation")
+	mapField := func(v ssa.Value) *types.Var { return c23CtlMapField(m, v) }
 	// assign/release pairing
 	a := release.Params[1]
 	pairs := []struct{ typ, add, del string }{{"handleTracker", "setAllocation", "removeAllocation"}, {"allocationState", "allocate", "release"}}
